@@ -2,6 +2,7 @@
 package main
 
 import (
+	"bytes"
 	"github.com/mr-tron/base58"
 	"encoding/json"
 	"fmt"
@@ -114,6 +115,9 @@ func mh(code byte, n int) string {
 func argShapes(r *rand.Rand, bps []string, addr string) [][]interface{} {
 	big1 := strings.Repeat("9", 400)
 	return [][]interface{}{
+		{"RPCPERMISSIONS", "dGVzdA==:RW", "x\\y:R"}, {"RPCPERMISSIONS", "dGVzdA==:R\\x"}, {"ACCOUNTWHITE", addr + "\\" + addr}, {"P2PWHITE", "{\"peerid\":\"" + bps[0] + "\"}\\x"},
+		{"RPCPERMISSIONS", true}, {"ACCOUNTWHITE", true}, {"P2PWHITE", true}, {"RPCPERMISSIONS", false}, {"RPCPERMISSIONS", "true"},
+		{"GASPRICE", "0"}, {"NAMEPRICE", "0"}, {"STAKINGMIN", "0"}, {"GASPRICE", "00"}, {"GASPRICE", "+0"},
 		{mh(0x00, 64)}, {mh(0x00, 70), bps[0]}, {mh(0x00, 1)}, {mh(0x12, 32)}, {bps[0], mh(0x00, 64)}, {mh(0x00, 37)}, {mh(0x00, 120)},
 		nil, {}, {nil}, {1}, {true}, {map[string]interface{}{"a": 1}}, {[]interface{}{1, 2}}, {""}, {"x"},
 		{addr}, {addr, addr}, {addr, 1}, {addr, nil}, {1, addr}, {nil, nil}, {"name12345678"}, {"name12345678", addr}, {"name12345678", 1}, {"name12345678", nil},
@@ -208,11 +212,23 @@ func run(c *vf.Ctx, name string, public bool, ver int, part int) {
 	sNames := []string{"rich", "staked", "name-owner", "admin", "new"}
 	// --- generate inputs ---------------------------------------------------------------------
 	type gen struct {
-		desc string
-		sp   rig.TxSpec
-		snd  string
+		desc  string
+		sp    rig.TxSpec
+		snd   string
+		flush bool // execute right away (ordered multi-step sequences)
 	}
 	var inputs []gen
+	// ordered sequence first (while the only stake is the "staked" account's, so its parameter votes win):
+	// degenerate parameter values, each followed by ordinary transactions that use the parameter
+	if ver >= 2 {
+		for _, pv := range [][2]string{{"GASPRICE", "0"}, {"NAMEPRICE", "0"}, {"STAKINGMIN", "0"}, {"BPCOUNT", "0"}, {"GASPRICE", "1"}} {
+			inputs = append(inputs,
+				gen{fmt.Sprintf("gov-seq v1voteDAO %v", pv), rig.TxSpec{Type: types.TxType_GOVERNANCE, To: []byte(types.AergoSystem), Amount: big.NewInt(0), Payload: rig.GovPayload("v1voteDAO", pv[0], pv[1]), GasPrice: gp}, "staked", true},
+				gen{"seq transfer after parameter vote", rig.TxSpec{Type: types.TxType_TRANSFER, To: rich.Addr, Amount: big.NewInt(1), GasPrice: gp}, "name-owner", true},
+				gen{"seq transfer gaslimit after parameter vote", rig.TxSpec{Type: types.TxType_TRANSFER, To: rich.Addr, Amount: big.NewInt(1), GasPrice: gp, GasLimit: 100000}, "rich", true},
+				gen{"seq create name after parameter vote", rig.TxSpec{Type: types.TxType_GOVERNANCE, To: []byte(types.AergoName), Amount: rig.Aergo, Payload: rig.GovPayload("v1createName", fmt.Sprintf("p%s%08d", strings.ToLower(pv[0][:3]), len(inputs))), GasPrice: gp}, "rich", true})
+		}
+	}
 	shapes := argShapes(r, w.BPIDs, rich.B58())
 	recips := [][]byte{[]byte(types.AergoSystem), []byte(types.AergoName), []byte(types.AergoEnterprise), []byte("aergo.vault"), []byte("aergo.nosuch"), rich.Addr, nil, {}}
 	for _, cmd := range cmdNames {
@@ -238,15 +254,19 @@ func run(c *vf.Ctx, name string, public bool, ver int, part int) {
 			if sh == nil {
 				pl, _ = json.Marshal(map[string]interface{}{"Name": cmd})
 			}
-			for _, snd := range []string{"staked", sNames[r.Intn(len(sNames))]} {
+			first := "staked"
+			if bytes.Equal(to, recips[2]) {
+				first = "admin" // enterprise commands need an administrator to get past the permission check
+			}
+			for _, snd := range []string{first, sNames[r.Intn(len(sNames))]} {
 				amt := []*big.Int{big.NewInt(0), rig.Aergo, new(big.Int).Mul(big.NewInt(10000), rig.Aergo), big.NewInt(1)}[r.Intn(4)]
-				inputs = append(inputs, gen{fmt.Sprintf("gov %s args#%d to=%q", cmd, si, to), rig.TxSpec{Type: types.TxType_GOVERNANCE, To: to, Amount: amt, Payload: pl, GasPrice: gp}, snd})
+				inputs = append(inputs, gen{fmt.Sprintf("gov %s args#%d to=%q", cmd, si, to), rig.TxSpec{Type: types.TxType_GOVERNANCE, To: to, Amount: amt, Payload: pl, GasPrice: gp}, snd, false})
 			}
 		}
 	}
 	for pi, pl := range rawPayloads() {
 		for _, to := range recips[:3] {
-			inputs = append(inputs, gen{fmt.Sprintf("gov raw-payload#%d to=%q", pi, to), rig.TxSpec{Type: types.TxType_GOVERNANCE, To: to, Amount: big.NewInt(0), Payload: pl, GasPrice: gp}, sNames[r.Intn(len(sNames))]})
+			inputs = append(inputs, gen{fmt.Sprintf("gov raw-payload#%d to=%q", pi, to), rig.TxSpec{Type: types.TxType_GOVERNANCE, To: to, Amount: big.NewInt(0), Payload: pl, GasPrice: gp}, sNames[r.Intn(len(sNames))], false})
 		}
 	}
 	// all tx types with odd field lengths
@@ -274,7 +294,7 @@ func run(c *vf.Ctx, name string, public bool, ver int, part int) {
 				pl = []byte(`[["let","x",1],["return","%x%"]]`)
 			}
 			sp := rig.TxSpec{Type: tt, To: to, Amount: new(big.Int).SetBytes(amt), Payload: pl, GasPrice: gp, GasLimit: []uint64{0, 1, 1 << 62}[r.Intn(3)]}
-			inputs = append(inputs, gen{fmt.Sprintf("type=%d to-len=%d amount-len=%d payload-len=%d", tt, len(to), len(amt), len(pl)), sp, sNames[r.Intn(len(sNames))]})
+			inputs = append(inputs, gen{fmt.Sprintf("type=%d to-len=%d amount-len=%d payload-len=%d", tt, len(to), len(amt), len(pl)), sp, sNames[r.Intn(len(sNames))], false})
 		}
 	}
 	// DEPLOY / REDEPLOY payload framings: 4-byte little-endian head length followed by code and args
@@ -282,19 +302,32 @@ func run(c *vf.Ctx, name string, public bool, ver int, part int) {
 		for _, body := range [][]byte{nil, {1}, []byte("function f() end abi.register(f)"), make([]byte, 40)} {
 			pl := append([]byte{byte(hl), 0, 0, 0}, body...)
 			for _, tt := range []types.TxType{types.TxType_DEPLOY, types.TxType_NORMAL} {
-				inputs = append(inputs, gen{fmt.Sprintf("deploy head-len=%d body-len=%d type=%d", hl, len(body), tt), rig.TxSpec{Type: tt, Amount: big.NewInt(0), Payload: pl, GasPrice: gp}, "rich"})
+				inputs = append(inputs, gen{fmt.Sprintf("deploy head-len=%d body-len=%d type=%d", hl, len(body), tt), rig.TxSpec{Type: tt, Amount: big.NewInt(0), Payload: pl, GasPrice: gp}, "rich", false})
 			}
 		}
 	}
 	for _, hl := range []uint32{0xffffffff, 0x80000000, 1 << 20} {
 		pl := []byte{byte(hl), byte(hl >> 8), byte(hl >> 16), byte(hl >> 24), 1, 2, 3}
-		inputs = append(inputs, gen{fmt.Sprintf("deploy head-len=%d", hl), rig.TxSpec{Type: types.TxType_DEPLOY, Amount: big.NewInt(0), Payload: pl, GasPrice: gp}, "rich"})
+		inputs = append(inputs, gen{fmt.Sprintf("deploy head-len=%d", hl), rig.TxSpec{Type: types.TxType_DEPLOY, Amount: big.NewInt(0), Payload: pl, GasPrice: gp}, "rich", false})
 	}
 	// account field lengths (unsigned / signed by rich)
 	for _, l := range lens {
 		acc := make([]byte, l)
 		r.Read(acc)
-		inputs = append(inputs, gen{fmt.Sprintf("account-len=%d", l), rig.TxSpec{Type: types.TxType_TRANSFER, Account: acc, To: rich.Addr, Amount: big.NewInt(1), GasPrice: gp}, "rich"})
+		inputs = append(inputs, gen{fmt.Sprintf("account-len=%d", l), rig.TxSpec{Type: types.TxType_TRANSFER, Account: acc, To: rich.Addr, Amount: big.NewInt(1), GasPrice: gp}, "rich", false})
+	}
+	// ordered enterprise sequences (private chains): a hostile configuration value is stored, then the
+	// configuration is switched on, extended and switched off - every step is admitted and executed at once
+	if !public {
+		ent := func(cmd string, args ...interface{}) gen {
+			return gen{desc: fmt.Sprintf("gov-seq %s %v", cmd, args), sp: rig.TxSpec{Type: types.TxType_GOVERNANCE, To: []byte(types.AergoEnterprise), Amount: big.NewInt(0), Payload: rig.GovPayload(cmd, args...), GasPrice: gp}, snd: "admin", flush: true}
+		}
+		for _, key := range []string{"RPCPERMISSIONS", "ACCOUNTWHITE", "P2PWHITE", "P2PBLACK"} {
+			for _, v := range []string{"dGVzdA==:R\\x", "a\\b:W", "x", ":", "dGVzdA==:", "\\", "dGVzdA==:W\\", "dGVzdA==:RW", admin.B58(), admin.B58() + "\\" + rich.B58(), "{\"peerid\":\"" + w.BPIDs[0] + "\"}", "{\"cidr\":\"1.1.1.1/24\"}\\{"} {
+				inputs = append(inputs, ent("setConf", key, v), ent("enableConf", key, true), ent("appendConf", key, "dGVzdA==:W"), ent("appendConf", key, rich.B58()),
+					ent("enableConf", key, true), ent("removeConf", key, v), ent("enableConf", key, false), ent("appendAdmin", rich.B58()), ent("removeAdmin", rich.B58()))
+			}
+		}
 	}
 	c.Count("inputs_generated", len(inputs))
 	// --- drive -----------------------------------------------------------------------------------
@@ -306,7 +339,21 @@ func run(c *vf.Ctx, name string, public bool, ver int, part int) {
 		}
 		admittedSince = 0
 		nut.MempoolSync()
+		offered, _ := nut.MempoolGet()
 		rsp, err := nut.Produce(&rig.ProduceReq{FromMempool: true, Connect: true, Confirms: -1, SignKey: 0})
+		if err == nil && rsp.Panic == "" {
+			// a tx the producer skips stays in the pool and blocks every later nonce of its sender: take it out
+			inc := map[string]bool{}
+			for _, h := range rsp.Included {
+				inc[string(h)] = true
+			}
+			for _, tb := range offered {
+				if tx := rig.DecTx(tb); tx != nil && !inc[string(tx.Hash)] {
+					nut.MempoolDelTx(tb)
+					c.Count("admitted_but_skipped_by_producer", 1)
+				}
+			}
+		}
 		if err != nil {
 			c.Violation("node-died-producing-admitted-txs", fmt.Sprintf("%s: %v", name, err), map[string]string{"config": name})
 			return false
@@ -359,11 +406,30 @@ func run(c *vf.Ctx, name string, public bool, ver int, part int) {
 	}
 	pend := map[string]uint64{}
 	for ii, g := range inputs {
+		if restarts > 12 {
+			c.Count("configs_abandoned_after_many_crashes", 1)
+			return // the node keeps crashing: the violations are reported, more restarts add nothing
+		}
 		a := senders[g.snd]
 		sp := g.sp
 		sp.From = a
 		sp.ChainID = cid()
+		// next usable nonce as the node sees it: after the account's pooled txs, else state nonce + 1
 		sp.Nonce = nonce[a.B58()] + pend[a.B58()] + 1
+		if st, err := nut.GetState(a.Addr); err == nil && st.Err == "" {
+			sp.Nonce = st.Nonce + 1
+			if snap, err := nut.MempoolSnapshot(); err == nil {
+				for _, l := range snap.Accounts {
+					if bytes.Equal(l.Account, a.Addr) {
+						for _, nn := range l.Nonces {
+							if nn >= sp.Nonce {
+								sp.Nonce = nn + 1
+							}
+						}
+					}
+				}
+			}
+		}
 		tx := sp.Build()
 		enc := rig.EncTx(tx)
 		in := input{Desc: g.desc, Type: int32(sp.Type), To: string(sp.To), Payload: string(sp.Payload), Sender: g.snd, Amount: fmt.Sprintf("%x", rig.BigBytes(sp.Amount)), TxHex: fmt.Sprintf("%x", enc)}
@@ -415,6 +481,13 @@ func run(c *vf.Ctx, name string, public bool, ver int, part int) {
 		}
 		if pr != "" {
 			c.Count("pool_rejected", 1)
+			if string(sp.To) == types.AergoEnterprise {
+				rs := pr
+				if len(rs) > 60 {
+					rs = rs[:60]
+				}
+				c.Count("enterprise_rejected/"+strings.SplitN(g.desc, " args", 2)[0]+"/"+rs, 1)
+			}
 			continue
 		}
 		c.Count("pool_admitted", 1)
@@ -426,7 +499,7 @@ func run(c *vf.Ctx, name string, public bool, ver int, part int) {
 			c.Sample(in)
 		}
 		// (c) execute admitted txs in small blocks
-		if admittedSince >= 4 {
+		if admittedSince >= 4 || g.flush {
 			if !flush() {
 				return
 			}
